@@ -592,12 +592,28 @@ impl YWorld {
             let mk = |id: u64| Awareness::with_clock(yrs::Doc::with_client_id(id), || 0u64);
             let mut o1 = mk(900_001);
             let mut o2 = mk(900_002);
-            let ups = self.owner_updates.clone();
+            let mut ups = self.owner_updates.clone();
+            let mut r = Rng::new(crate::rng::mix(self.cfg.nodes[0].client_id, ups.len() as u64));
+            // timeout removals as third parties broadcast them (y-protocols removeAwarenessStates):
+            // a null state under the very clock of the state whose owner went silent
+            let mut removals = Vec::new();
+            for u in ups.iter() {
+                for (id, e) in u.clients.iter() {
+                    if e.json.as_ref() != "null" && r.chance(25) {
+                        let mut clients = std::collections::HashMap::new();
+                        clients.insert(*id, yrs::sync::awareness::AwarenessUpdateEntry { clock: e.clock, json: "null".into() });
+                        removals.push(AwarenessUpdate { clients });
+                    }
+                }
+            }
+            if !removals.is_empty() {
+                probe(&mut self.stats, "ysync.aw-order-with-same-clock-removal");
+            }
+            ups.extend(removals);
             let mut order: Vec<usize> = (0..ups.len()).collect();
             for i in order.iter() {
                 let _ = o1.apply_update(ups[*i].clone());
             }
-            let mut r = Rng::new(crate::rng::mix(self.cfg.nodes[0].client_id, ups.len() as u64));
             r.shuffle(&mut order);
             for i in order.iter() {
                 let _ = o2.apply_update(ups[*i].clone());
@@ -612,7 +628,7 @@ impl YWorld {
                 return Err(viol(
                     "ysync.aw-order",
                     format!(
-                        "two fresh observers applied the same {} owner-originated awareness updates in different orders and disagree\n  in order : {:?}\n  shuffled : {:?}",
+                        "two fresh observers applied the same {} awareness updates (the owners' own ones and same-clock timeout removals by third parties) in different orders and disagree\n  in order : {:?}\n  shuffled : {:?}",
                         ups.len(),
                         s1,
                         s2
